@@ -21,6 +21,50 @@ CLAIMED = {
         design="3 (C10)"),
 }
 
+COMMON_NOTE = ("Assumed: floats are reals, every denominator that occurs is non-zero, sqrt of a negative number is unspecified; "
+               "callee contracts proved in their own property (Thermodynamics EOS functions are pure with w=e+p, C10); external "
+               "routines only by their documented contract (root_scalar/brentq: sign-changing bracket else ValueError, root in the "
+               "bracket, converged => f(root)=0; root/hybr: success => fun=0; minimize_scalar: x in bounds, no optimality; "
+               "solve_ivp/simpson: no accuracy). Trusted: wgvc interpreter/encoder, sympy normalisation/diff, z3.")
+
+CLAIMED["C02"] = dict(
+    level="proof",
+    text=("For every EOS (uninterpreted p,e,w per phase) and every wall velocity: junction lemma; vpvmAndvpovm returns v+v- and v+/v- of "
+          "the flux relations; every tuple returned by matchDeton and by matchDeflagOrHyb on the path where hybr converged carries equal "
+          "energy flux and equal momentum flux; the residuals given to brentq/hybr are those relations; findMatching dispatches on vw>vJ, "
+          "returns the matching at the root of (shock temperature - Tn) and takes the template fallback only when no sign change was found "
+          "and the bounded extremum is positive; findHydroBoundaries returns c1=-w g^2 v and c2=p+w g^2 v^2 of BOTH sides and "
+          "velocityMid=-(v+ + v-)/2. Known finding F7: on the path where hybr did not converge the tuple is returned anyway."),
+    note=COMMON_NOTE + " Not decided: convergence of hybr/brentq; the 'exact rather than approximate' clause beyond the guard of the fallback. "
+         "Block contract: the initial-guess section of matchDeflagOrHyb is abstracted by its frame (checked on the AST each run).",
+    design="3 (C02)")
+CLAIMED["C03"] = dict(
+    level="proof",
+    text=("shockDE returns d xi/dv and dT/dv of the self-similar fluid equations in both waves; the front event is mu(xi,v) xi = cs^2; the "
+          "residual whose root solveHydroShock returns is continuity of the energy flux across the front with plasma at rest ahead, in all "
+          "three cases of the case split (loop contract for the bracket search); centre-frame v+ is the Lorentz addition; detonation front is "
+          "undisturbed; efficiencyFactor integrates xi^2 v^2 g^2 w of the same right-hand side with prefactor 4/(vw^3 w(Tn) alpha_n), rarefaction "
+          "part with low-phase enthalpy and minus sign; template _dxiAndWdv and its event are the constant-sound-speed versions."),
+    note=COMMON_NOTE + " Not decided: accuracy of solve_ivp and simpson, that the terminal event fires.",
+    design="3 (C03)")
+CLAIMED["C05"] = dict(
+    level="proof",
+    text=("Every tuple returned by matchDeflagOrHyb(vw) satisfies T+^2(1-v-^2)=T-^2(1-v+^2) and the hybr residual encodes the same relation; "
+          "findvwLTE: sentinel 1 only for {shock bracket fails, mismatch at top of window positive, matching not converged}, sentinel 0 iff "
+          "mismatch at vMin negative after those guards, otherwise the brentq root of (shock temperature - Tn) on [vMin, vmax] with bracket signs "
+          "and tolerances as stated; the convergence flag is never read before it is written (stale-state frame obligation)."),
+    note=COMMON_NOTE + " Not decided: 'one sign over the whole window' (needs monotonicity of the mismatch), uniqueness of the matching at the root.",
+    design="3 (C05)")
+CLAIMED["C06"] = dict(
+    level="proof",
+    text=("matchDeflagOrHyb: v-^2=min(vw^2,cs^2_low(T-)), v- in {vw, cs_low}, 0<=v-<=vw; matchDeton: v+=vw, T+=Tn, v-^2=(v+v-)/(v+/v-), root "
+          "bracketed between Tn and the minimiser; findJouguetVelocity: the residual is the numerator of d(v+^2)/dT-, Chapman-Jouguet lemma "
+          "(its zero has v-^2=cs^2_low), returned value is v+ there (loop contract for the bracket search); template vJ solves the CJ quadratic "
+          "(larger root), detonationVAndT solves the matching quadratic on the weak branch and gives v-=cb at vJ; fastestDeflag/slowestDeton: "
+          "returned value and range flags on every path."),
+    note=COMMON_NOTE + " Not decided: 0<v<1, v+<v-, T+>Tn, weak-vs-strong selection by the numerical bracket, monotonicity of T(vw).",
+    design="3 (C06)")
+
 NOT_APPLICABLE = {
     "C11": "RK45 phase tracing interleaved with BFGS re-minimisation on an arbitrary potential: the content is the numerical behaviour of external routines; no contract within reach expresses or decides it (DESIGN section 4)",
     "C20": "values of improper integrals of transcendental integrands, 2x10000 table rows and quad: not decidable by SMT; checking rows against the integral is numerical testing, a different family (DESIGN section 4)",
